@@ -127,7 +127,7 @@ theorem lives_startPoint (pc : PCfg) (raws : List Raw) (start : Int) (t0 : TStat
       pc.filterCmd r.cmd = false ∧ (pc.filterCmdKey r.cmd r.args).isSome)
     (hnf : parseFails pc { lastSent := start } raws = false)
     (hsel : ∀ x ∈ raws, x.cmd = bSelect → ∀ a n, x.args = [a] → atoi? a = some n → 0 ≤ n)
-    (hmap : ∀ n : Int, 0 ≤ n → mapDb pc n ≠ -1)
+    (hmapnn : ∀ n : Int, 0 ≤ n → 0 ≤ mapDb pc n)
     (hno : NoOffsets t0.cps) (hn0 : KeysNodup t0.cps) (hr0 : RunIdInv t0)
     (T : TState) (o d : Int) (h : Lives pc raws start t0 txn T o d) :
     KeysNodup T.cps ∧ RunIdInv T ∧
@@ -135,9 +135,9 @@ theorem lives_startPoint (pc : PCfg) (raws : List Raw) (start : Int) (t0 : TStat
   have hinv : KeysNodup T.cps ∧ RunIdInv T := by
     induction h with
     | init => exact ⟨hn0, hr0⟩
-    | @life T o d hL sc evs k o' d' hitems hnd htx hpos hd' ih =>
+    | @life T o d hL sc evs k o' d' hitems hnd htx hpos ih =>
       obtain ⟨hnT, hrT⟩ := ih
-      obtain ⟨_, hso, _, _⟩ := lives_lose_nothing pc raws start t0 txn hraw hlo hstart hnest hpass hnf hsel hmap
+      obtain ⟨_, hso, _, _⟩ := lives_lose_nothing pc raws start t0 txn hraw hlo hstart hnest hpass hnf hsel hmapnn
         hno T o d hL
       have hBsub : List.Sublist (raws.filter (fun r => decide (o < r.off))) raws := List.filter_sublist
       have hrawB : ((raws.filter (fun r => decide (o < r.off))).map (·.off)).Pairwise (· < ·) :=
@@ -163,7 +163,7 @@ theorem lives_startPoint (pc : PCfg) (raws : List Raw) (start : Int) (t0 : TStat
       · -- every stored offset has its run id
         have hev := C07.parser_items_selOK _ o _ evs hitems (fun x hx => hsel x (hBsub.subset hx))
         exact C07.cp_offset_has_runid sc evs hev (crash T) rfl rfl (by simpa [crash, RunIdInv] using hrT) k
-  obtain ⟨hsa, hso, _, _⟩ := lives_lose_nothing pc raws start t0 txn hraw hlo hstart hnest hpass hnf hsel hmap
+  obtain ⟨hsa, hso, _, _⟩ := lives_lose_nothing pc raws start t0 txn hraw hlo hstart hnest hpass hnf hsel hmapnn
     hno T o d h
   refine ⟨hinv.1, hinv.2, ?_⟩
   rcases hsa with ⟨hnoT, _, _⟩ | hu
